@@ -166,6 +166,7 @@ fn roles(args: &[String]) -> i32 {
         Some("c05-reader") => c05::role_reader(&args[1..]),
         Some("c08-client") => c08::role_client(&args[1..]),
         Some("c09-sender") => c09::role_sender(&args[1..]),
+        Some("c09-reader") => c09::role_reader(&args[1..]),
         Some("c12-crasher") => c12::role_crasher(&args[1..]),
         Some("lsfd") => {
             // unrelated child: print inherited descriptors
